@@ -991,7 +991,10 @@ func (c *Conn) parseReturn(ret rpccp.Return, called [][]capnp.PipelineOp) parsed
 
 		var embargoCaps uintSet
 		var disembargoes []senderLoopback
-		mtab := ret.Message().CapTable
+		var mtab []*capnp.Client
+		if m := ret.Message(); m != nil { // nil for a Return that is a null pointer in its message
+			mtab = m.CapTable
+		}
 		for _, xform := range called {
 			p2, _ := capnp.Transform(content, xform)
 			iface := p2.Interface()
@@ -1412,6 +1415,9 @@ func (c *Conn) reportf(format string, args ...interface{}) {
 }
 
 func clearCapTable(msg *capnp.Message) {
+	if msg == nil {
+		return
+	}
 	releaseList(msg.CapTable).release()
 	msg.CapTable = nil
 }
